@@ -59,6 +59,15 @@ add("C16", "exploration",
     "Liveness-flavoured property decided by a watchdog: a hang is detected, termination is not proved; limits sit far above the worst legitimate walk on the generated sizes.",
     "property-based testing (proptest) with item-count invariants and a hang watchdog; coverage-guided fuzzing (libFuzzer) in the thorough tier", "DESIGN.md §5 C16")
 
+add("C10", "exploration",
+    "Exhaustive enumeration of all 256 values of EI_DATA, EI_CLASS and EI_VERSION and of the single-byte magic corruptions on 8 base files x 4 specs x 3 entry points with the expected error (kind and carried bytes) as oracle; plus seeded proptest search over generated files comparing the full query-digest vector under AnyEndian with the matching fixed spec (differential oracle) and requiring the other fixed spec to reject.",
+    "Combinations with more than one defect are skipped (counted); little-endian host for the NativeEndian clause.",
+    "exhaustive enumeration with an expected-error oracle + differential property-based testing (proptest) AnyEndian vs fixed spec", "DESIGN.md §5 C10")
+add("C18", "fault_enumeration",
+    "Crash points = prefix lengths: for every generated base file (seeded proptest choice sequences; tables placed early so most prefixes still open) EVERY prefix length is enumerated for files up to 4 KiB (256 boundary+random lengths above), both parsers; metamorphic oracle: each Ok answer of the fixed query plan on the prefix equals the complete file's answer, and appending arbitrary bytes changes no Ok answer. The 10 linker-produced samples are covered with sampled lengths.",
+    "Digests compare content, not error kinds; the extension clause is checked in its sound direction only.",
+    "crash-point (prefix) enumeration over property-based generated files with a metamorphic oracle (prefix/extension vs whole file)", "DESIGN.md §5 C18")
+
 NOT_YET = {}
 allp = [json.loads(l)["id"] for l in open("properties.jsonl")]
 checks = []
